@@ -1815,6 +1815,12 @@ public:
 
 class ConstProp : public AstVisitor {
   SymbolTable &symbolTable;
+  static int wrapAdd(int a, int b) {
+    return static_cast<int>(static_cast<unsigned>(a) + static_cast<unsigned>(b));
+  }
+  static int wrapSub(int a, int b) {
+    return static_cast<int>(static_cast<unsigned>(a) - static_cast<unsigned>(b));
+  }
 public:
   ConstProp(SymbolTable &symbolTable) :
     AstVisitor(true, true, true), symbolTable(symbolTable) {}
@@ -1831,14 +1837,16 @@ public:
       // Evaluate binary expression.
       int result;
       switch (expr.getOp()) {
-        case Token::PLUS:  result = LHS->getValue() +  RHS->getValue(); break;
-        case Token::MINUS: result = LHS->getValue() -  RHS->getValue(); break;
+        // Evaluate with the 32-bit wrap-around arithmetic of the target, in
+        // which comparisons are decided by the sign of the difference.
+        case Token::PLUS:  result = wrapAdd(LHS->getValue(), RHS->getValue()); break;
+        case Token::MINUS: result = wrapSub(LHS->getValue(), RHS->getValue()); break;
         case Token::EQ:    result = LHS->getValue() == RHS->getValue(); break;
         case Token::NE:    result = LHS->getValue() != RHS->getValue(); break;
-        case Token::LS:    result = LHS->getValue() <  RHS->getValue(); break;
-        case Token::LE:    result = LHS->getValue() <= RHS->getValue(); break;
-        case Token::GR:    result = LHS->getValue() >  RHS->getValue(); break;
-        case Token::GE:    result = LHS->getValue() >= RHS->getValue(); break;
+        case Token::LS:    result = wrapSub(LHS->getValue(), RHS->getValue()) < 0; break;
+        case Token::LE:    result = !(wrapSub(RHS->getValue(), LHS->getValue()) < 0); break;
+        case Token::GR:    result = wrapSub(RHS->getValue(), LHS->getValue()) < 0; break;
+        case Token::GE:    result = !(wrapSub(LHS->getValue(), RHS->getValue()) < 0); break;
         case Token::AND:   result = LHS->getValue() == 0 ? 0 : (RHS->getValue() == 0 ? 0 : 1); break;
         case Token::OR:    result = LHS->getValue() != 0 ? 1 : (RHS->getValue() == 0 ? 0 : 1); break;
         default:
@@ -1853,7 +1861,7 @@ public:
       // Evaluate unary expression.
       int result;
       switch (expr.getOp()) {
-        case Token::MINUS: result = -element->getValue(); break;
+        case Token::MINUS: result = wrapSub(0, element->getValue()); break;
         case Token::NOT:   result = element->getValue() == 0 ? 1 : 0; break;
         default:
           throw SemanticTokenError(expr.getLocation(), "unexpected unary op", expr.getOp());
